@@ -30,7 +30,9 @@ CORPUS_MUST_RAISE = ['Foo', 'U:99999', 'UNIMOD:xyz', 'M:notaname', 'X:99999', 'R
                      'Formula:2C', 'Formula:xC2', 'Formula:c2H4O', 'Formula:C2 H4', 'Formula:C2+H', 'Formula:C2H4ss',
                      'Formula:xH0', 'Glycan:xHex', 'Glycan:Hex Hex',
                      # a second colon field
-                     'Formula:C2:H2', 'Glycan:Hex:2', 'Glycan:Hex:Foo', 'Obs:1:5', 'Obs:+1:x', 'U:+1:5', 'U:35:x']
+                     'Formula:C2:H2', 'Glycan:Hex:2', 'Glycan:Hex:Foo', 'Obs:1:5', 'Obs:+1:x', 'U:+1:5', 'U:35:x',
+                     # an empty value / an empty alternative beside an unresolvable one
+                     '', 'Foo|', '|Foo', '|', 'Foo||Bar']
 # macro tokens: whole notation elements, so that short sequences reach well-formed groups followed by one odd element
 MACRO = ['PEK', 'K', '[1]', '^2', '/2', '[+Na+]', '-', '?', '(', ')', '<13C>', '<[1]@K>', '{1}', '+', '//', '[Oxidation]',
          '^', '/', '\\\\', '[']
